@@ -37,6 +37,27 @@ def main(argv):
     env.setup()
     from jxsim.seedtree import run_seed
 
+    if argv[0] == "--serve":
+        # persistent executor for the shrinker: one JSON program per stdin line -> one JSON result per stdout line
+        sc = load(argv[1])
+        out = os.fdopen(os.dup(1), "w")
+        devnull = os.open(os.devnull, os.O_WRONLY)
+        os.dup2(devnull, 1)  # anything jaxley prints must not corrupt the protocol
+        out.write(json.dumps({"ready": True}) + "\n")
+        out.flush()
+        for line in sys.stdin:
+            line = line.strip()
+            if not line:
+                continue
+            program = json.loads(line)
+            faulthandler.dump_traceback_later(int(os.environ.get("JXSIM_RUN_TIMEOUT", "600")), exit=True)
+            res = run_one(sc, program)
+            faulthandler.cancel_dump_traceback_later()
+            res.pop("abstract_states", None)
+            res.pop("transitions", None)
+            out.write(json.dumps(res, default=str) + "\n")
+            out.flush()
+        return 0
     if argv[0] == "--exec":
         prop, pfile, out = argv[1:4]
         sc = load(prop)
